@@ -276,7 +276,7 @@ func lost(dir string, i int, sender, receiver *harness.StreamObs) string {
 		return fmt.Sprintf("%s message %d was sent but never received\n  sender:   %s\n  receiver: %s", dir, i, logOf(sender), logOf(receiver))
 	}
 	if timedOut(sender) || timedOut(receiver) {
-		return fmt.Sprintf("INCONCLUSIVE %s message %d: a stream operation timed out\n  sender:   %s\n  receiver: %s", dir, i, logOf(sender), logOf(receiver))
+		return fmt.Sprintf("INCONCLUSIVE: %s message %d: a stream operation timed out\n  sender:   %s\n  receiver: %s", dir, i, logOf(sender), logOf(receiver))
 	}
 	return fmt.Sprintf("%s message %d was neither sent nor received: the stream stopped early\n  sender:   %s\n  receiver: %s", dir, i, logOf(sender), logOf(receiver))
 }
@@ -322,7 +322,7 @@ func ClientToServer(d *m.Design, s *m.Service, meth *m.Method, c *Case, obs *har
 	if meth.Streaming == "payload" || c.Spec.ClientCloses {
 		if cli.Done && srv.End != "eof" {
 			if timedOut(srv) && !has(cli, "close:ok") && !strings.HasPrefix(lastLog(cli), "closeandrecv") {
-				return "INCONCLUSIVE end of stream: " + logOf(srv)
+				return "INCONCLUSIVE: end of stream: " + logOf(srv)
 			}
 			return fmt.Sprintf("the client ended the stream after %d messages but the service's next Recv returned %q instead of io.EOF\n  client: %s\n  server: %s", len(c.Spec.Send), srv.End, logOf(cli), logOf(srv))
 		}
@@ -352,7 +352,7 @@ func ServerToClient(d *m.Design, s *m.Service, meth *m.Method, c *Case, obs *har
 				if has(srv, "sendandclose:ok") {
 					return fmt.Sprintf("the service sent the final result but CloseAndRecv never returned it\n  client: %s\n  server: %s", logOf(cli), logOf(srv))
 				}
-				return "INCONCLUSIVE final result: " + logOf(cli) + " / " + logOf(srv)
+				return "INCONCLUSIVE: final result: " + logOf(cli) + " / " + logOf(srv)
 			}
 			return fmt.Sprintf("the client stream stopped early\n  client: %s\n  server: %s", logOf(cli), logOf(srv))
 		}
@@ -406,7 +406,7 @@ func ServerToClient(d *m.Design, s *m.Service, meth *m.Method, c *Case, obs *har
 	if meth.Streaming == "result" || !c.Spec.ClientCloses {
 		if srv.Done && cli.End != "eof" {
 			if cli.End == "timeout" && !has(srv, "close:ok") {
-				return "INCONCLUSIVE end of stream: " + logOf(cli) + " / " + logOf(srv)
+				return "INCONCLUSIVE: end of stream: " + logOf(cli) + " / " + logOf(srv)
 			}
 			return fmt.Sprintf("the service closed the stream after %d results but the client's next Recv returned %q instead of io.EOF\n  client: %s\n  server: %s", len(c.Spec.Results), cli.End, logOf(cli), logOf(srv))
 		}
@@ -470,7 +470,7 @@ func Rejected(d *m.Design, meth *m.Method, c *Case, obs *harness.Obs) (msg strin
 				if has(cli, fmt.Sprintf("send:%d:ok", j)) {
 					return fmt.Sprintf("invalid message %d was sent but the service's Recv neither returned it nor failed\n  client: %s\n  server: %s", j, logOf(cli), logOf(srv)), false
 				}
-				return "INCONCLUSIVE " + logOf(cli) + " / " + logOf(srv), false
+				return "INCONCLUSIVE: " + logOf(cli) + " / " + logOf(srv), false
 			case l == pre+"eof":
 				return fmt.Sprintf("invalid message %d (%s) was turned into the end of the stream (io.EOF) instead of an error\n  sent: %s", j, c.Fault.Desc, c.Spec.Send[j].Canon()), false
 			}
